@@ -96,6 +96,12 @@ class Binding(object):
                     v = self.value(k, rel)
                     row[tag] = v
                     org[tag] = (v, repr(v), (k, rel))
+            if getattr(self, 'warm', None) and len(rows) >= 2 and ri == len(rows) - 1:
+                # the filter has been evaluated on this grid before its last row arrives
+                try:
+                    g.filter(self.warm)
+                except Exception:
+                    pass
             g.append(row)
             objs.append(row)
             origin.append(org)
@@ -449,8 +455,10 @@ def replay_generated(rep, b, cases, viol):
         limits = limits_of(case)
         b.noise = ('->' in text)      # reference following is exercised on a grid with a mutation history
         b.promote = promote_of(text)
+        b.warm = text if sum(ord(ch) for ch in text) % 3 == 1 else None
         src_shape, calls = execute(b, text, rows, limits)
         b.noise = b.promote = False
+        b.warm = None
         stats['cases'] += 1
         stats['calls'] += len(calls)
         stats['rows'] += len(rows)
@@ -873,8 +881,11 @@ def replay(path):
         case = {'text': [ord(ch) for ch in c['text']], 'rows': c['rows'], 'exp': c['allowed_per_row'],
                 'lims': c['lims'], 'ast': c['ast']}
         b.promote = promote_of(c['text'])
+        b.noise = ('->' in c['text'])
+        b.warm = c['text'] if sum(ord(ch) for ch in c['text']) % 3 == 1 else None
         src_shape, calls = execute(b, c['text'], c['rows'], limits_of(case))
-        b.promote = False
+        b.promote = b.noise = False
+        b.warm = None
         bad = compare_case(case, src_shape, calls)
         print('filter   :', c['text'])
         for cl in calls:
